@@ -146,7 +146,7 @@ class CaseObs:
 
 def execute(built, runs, ctl, gate_events=0.0, gate_saves=0.0, write_once=True,
             collab_faults=None, extra_kwargs=None, start_gated=False, on_quiescent=None,
-            collect_stuck=True, sequential=False, charts=None, pool_cap=None):
+            collect_stuck=True, sequential=False, charts=None, pool_cap=None, shared_meta=False):
     """runs: list of (tag, val).  Overlapping by default; sequential=True runs them in order."""
     st = setup_engine()
     obs = CaseObs()
@@ -157,6 +157,9 @@ def execute(built, runs, ctl, gate_events=0.0, gate_saves=0.0, write_once=True,
     ros = [RunObs(t, v) for t, v in runs]
     obs.runs = ros
     chart0 = built.chart
+    meta_obj = {'caller': 'rv', 'n': 1}
+    obs.meta_before = dict(meta_obj)
+    obs.meta_obj = meta_obj if shared_meta else None
     chart_of = {}
     for i, ro in enumerate(ros):
         chart_of[ro.tag] = (charts[i] if charts and charts[i] is not None else chart0)
@@ -173,7 +176,11 @@ def execute(built, runs, ctl, gate_events=0.0, gate_saves=0.0, write_once=True,
             await rt.gate(('start', ro.tag))
         sess.ev('run_begin', ro.tag, None)
         try:
-            res = await chart.run(pipeline_id=ro.tag, input_kwargs=kw)
+            if shared_meta:
+                # the caller passes ONE meta dict to every run: it is the caller's object, the runs may read it
+                res = await chart.run(pipeline_id=ro.tag, input_kwargs=kw, meta=meta_obj)
+            else:
+                res = await chart.run(pipeline_id=ro.tag, input_kwargs=kw)
         except BaseException as e:  # noqa: BLE001
             if sess.frozen:
                 raise
